@@ -11,6 +11,10 @@
 -/
 import Ladybug.DrvCore
 import Ladybug.Model.Serial.Coll
+import Ladybug.Model.Serial.Legend
+import Ladybug.Model.Serial.DesignDay
+import Ladybug.Model.Serial.Wea
+import Ladybug.Model.Serial.Csv
 
 namespace DrvC07
 open Codec Cal
@@ -120,6 +124,17 @@ def rt (cls : String) (v : PyVal) : String :=
   | "Color" => okv ((Col.rd.dec v).map Col.enc)
   | "DataType" => okv ((DType.rd.dec v).map DType.enc)
   | "Header" => okv ((Hdr.rd.dec v).map Hdr.enc)
+  | "ColorRange" => okv ((CRange.rd.dec v).map CRange.enc)
+  | "LegendParameters" => okv ((LP.rd.dec v).map LP.enc)
+  | "LegendParametersCategorized" => okv ((LPC.rd.dec v).map (LPC.enc fun _ => ["<generated>"]))
+  | "Legend" => okv ((Leg.rd.dec v).map Leg.enc)
+  | "DryBulbCondition" => okv ((DryBulb.rd.dec v).map DryBulb.enc)
+  | "HumidityCondition" => okv ((Humidity.rd.dec v).map Humidity.enc)
+  | "WindCondition" => okv ((Wind.rd.dec v).map Wind.enc)
+  | "SkyCondition" => okv ((Sky.rd.dec v).map Sky.enc)
+  | "DesignDay" => okv ((DDay.rd.dec v).map DDay.enc)
+  | "DDY" => okv ((DDYc.rd.dec v).map DDYc.enc)
+  | "Wea" => okv ((WeaC.rd.dec v).map WeaC.enc)
   | "HourlyDiscontinuous" => okv (((Coll.rd .hourlyDisc false).dec v).map Coll.enc)
   | "HourlyContinuous" => okv (((Coll.rd .hourlyCont false).dec v).map Coll.enc)
   | "Daily" => okv (((Coll.rd .daily false).dec v).map Coll.enc)
@@ -132,11 +147,11 @@ def rt (cls : String) (v : PyVal) : String :=
   | "MonthlyPerHour_imm" => okv (((Coll.rd .mph true).dec v).map Coll.enc)
   | _ => "bad-op"
 
-def apOfNats : List Nat → Option AP
+def apOfNats : List Nat → Option Codec.AP
   | [a, b, c, d, e, f, g, l] => some ⟨a, b, c, d, e, f, g, l != 0⟩
   | _ => none
 
-def showAP (a : AP) : String :=
+def showAP (a : Codec.AP) : String :=
   "ok " ++ Drv.showNats [a.stM, a.stD, a.stH, a.endM, a.endD, a.endH, a.ts, if a.leap then 1 else 0]
 
 def handle (toks : List String) : String :=
@@ -164,6 +179,26 @@ def handle (toks : List String) : String :=
   | "loc_copy" :: rest =>
     match whole rest with
     | some v => okv (((Loc.rd.dec v).bind Loc.copy).map Loc.enc)
+    | none => "bad-op"
+  | "hdr_csv" :: flag :: rest =>
+    match Drv.bool? flag, whole rest with
+    | some perRow, some v =>
+      match Hdr.rd.dec v with
+      | some h =>
+        match Hdr.csvRoundTrip perRow h with
+        | some r => okv (r.map Hdr.enc)
+        | none => "skip"
+      | none => "bad-op"
+    | _, _ => "bad-op"
+  | ["split", hs, ht] =>
+    match hexToStr? hs, hexToStr? (if ht = "00" then "" else ht) with
+    | some sep, some t =>
+      if sep.isEmpty then "bad-op"
+      else Drv.joinSp (("ok L" ++ toString (splitS sep t).length) :: (splitS sep t).map (fun x => "s" ++ strToHex x))
+    | _, _ => "bad-op"
+  | ["dt_text", h] =>
+    match hexToStr? (if h = "00" then "" else h) with
+    | some s => okv ((DType.ofText s).map DType.enc)
     | none => "bad-op"
   | ["spaced", h] =>
     match hexToStr? h with
